@@ -704,4 +704,9 @@ func TestVerifC06(t *testing.T) {
 			d, setts = newFilter()
 		}
 	}
+
+	// Edit histories through the HTTP API (zz_verif_C06_edit_test.go).
+	if hungTables < 2 {
+		c06EditStream(t, out, rnd.Fork(0xE017))
+	}
 }
